@@ -265,6 +265,8 @@ RunInfo run(const sim::Plan &plan) {
     c.plan = &plan;
     c.parent = simalloc::create(ac);
     c.level = (int)plan.get("level", 1) % 3;
+    int requested_level = c.level;
+    if (c.level == 2 && plan.get("backtrace_mode", 0) == 1) { c.level = 1; } // no backtrace support: the tracer documents falling back to byte counting
     c.nworkers = (int)plan.get("nworkers", 2);
     if (c.nworkers < 1) c.nworkers = 1;
     if (c.nworkers > MAXW) c.nworkers = MAXW;
@@ -277,7 +279,8 @@ RunInfo run(const sim::Plan &plan) {
     aws_logger_init_from_external(&c.logger, c.parent, &c.formatter, &c.channel, &c.writer, AWS_LL_TRACE);
     aws_logger_set(&c.logger);
 
-    c.tr = aws_mem_tracer_new(c.parent, nullptr, (enum aws_mem_trace_level)c.level, (size_t)plan.get("frames", 8));
+    c.tr = aws_mem_tracer_new(c.parent, nullptr, (enum aws_mem_trace_level)requested_level, (size_t)plan.get("frames", 8));
+    if (requested_level != c.level) sim::probe("stacks_level_clamped_without_backtrace");
     if (!c.tr) sim::violation("c17:new", "aws_mem_tracer_new returned NULL");
     if (aws_mem_tracer_bytes(c.tr) != 0 || aws_mem_tracer_count(c.tr) != 0) sim::violation("c17:bytes", "fresh tracer reports outstanding memory");
     if (c.nworkers == 1 && !plan.get("use_thread", 0)) run_worker(c, 1);
@@ -346,6 +349,8 @@ void gen(uint64_t seed, int tier, sim::Plan &p) {
     p.cfg["alloc_reuse_permille"] = r.pick(std::vector<int64_t>{300, 700, 1000});
     // the tracer only time-stamps allocations and ignores a failing clock: environments without CLOCK_BOOTTIME (every read fails)
     // or with occasional failures are legal for it
+    // systems where backtrace() is unsupported (the tracer falls back to byte counting) or yields very shallow stacks
+    if (r.chance(0.15)) p.cfg["backtrace_mode"] = r.range(1, 3);
     if (r.chance(0.15)) p.cfg["p_clockfail_boot"] = r.pick(std::vector<int64_t>{1000000, 1000000, 50000, 300000});
     p.cfg["alloc_move_permille"] = r.pick(std::vector<int64_t>{0, 500, 1000});
     static const std::vector<int64_t> sizes = {1, 8, 16, 16, 16, 32, 32, 64, 100, 1000, 5000};
